@@ -482,6 +482,7 @@ class Mitochondria:
         Format: "tool_name(arg1, arg2, kwarg=value)"
         """
         tree = ast.parse(expression, mode='eval')
+        _reject_repeated_keywords(tree)
 
         if not isinstance(tree.body, ast.Call):
             raise ValueError("Expected a tool call: tool_name(args)")
